@@ -215,7 +215,11 @@ class BaseParser:
         resolved = False
         # todo: add resolve hooks so that application code can execute lazy-load type process logic
         for name in list(self.forward_refs):
-            ref, constraints = self.forward_refs[name]
+            pending = self.forward_refs.get(name)
+            if pending is None:
+                # resolved by another thread in the meantime
+                continue
+            ref, constraints = pending
             try:
                 evaluate_forward_ref(ref, self.globals, local_vars)
                 if ref.__forward_evaluated__:
@@ -248,7 +252,7 @@ class BaseParser:
                     resolved = True
                     if self.is_local:
                         clear_refs.append(ref)
-                    self.forward_refs.pop(name)
+                    self.forward_refs.pop(name, None)
             except Exception:
                 if ignore_errors:
                     continue
